@@ -27,9 +27,9 @@ CLAIMS = {
     'C07': ('Kernel-evaluated sweep of all 64x64x5 move strings (theorem) + position commands in all forms against model and engine-internal replay',
             'C07_roundtrip*: every printable move parses back to itself (lower case, upper-case promotion suffix, fully upper case): complete finite domain decided by vm_compute and lifted to a universal statement. C07pos.v (PositionProofs): C07_position_line / C07_position_by_the_rules: for every input line routed to the position handler (startpos, bare FEN, fen keyword), a move list legal by the rules is accepted and the resulting position is exactly the fold of the rules\' Spec.apply over the moves from the start (pos_equiv: board, turn, rights, ep, ply), killer table cleared; C07_startpos: the initial position is a legal position of the rules with 20/400/8902 paths. Engine: position commands in all forms with whole games and prefixes must give the snapshot obtained by playing the moves (engine vs engine) and the model\'s.' + CORR,
             TB + 'That the loader builds the placement the FEN text denotes is decided by the FEN stream (C08), not by a theorem.', '6/C07'),
-    'C08': ('Coq theorems parse_fen total and sound (all strings) + FEN stream (valid, variants, mutations, junk) against the engine',
-            'C08_total: no string makes the loader panic (every board index and list append is guarded); C08_sound: every accepted string yields a well-formed position (lists = board, one king each, capacities incl. room for promotions, no back-rank pawns, consistent castling/ep fields, ply in range, side not to move not in check). Both for ALL strings.' + CORR,
-            TB + 'Faithfulness for valid FENs is decided by the differential stream (engine snapshot = model snapshot); a rejected FEN leaving the position unchanged is checked through the command interpreter.', '6/C08'),
+    'C08': ('Coq theorems parse_fen total and sound (all strings) and faithful (round trip from every legal position) + FEN stream (valid, variants, mutations, overflow ranks, junk) against the engine',
+            'C08_total: no string makes the loader panic (every board index and list append is guarded); C08_sound: every accepted string yields a well-formed position (lists = board, one king each, capacities incl. room for promotions, no back-rank pawns, consistent castling/ep fields, ply in range, side not to move not in check). Both for ALL strings. C08rt.v (FenRoundtrip): C08_faithful / C08_every_legal_position_accepted: every legal position of the rules (Spec.legal_position), printed as a FEN by a printer defined on the rules\' side (six fields, canonical digit compression), with any halfmove clock up to 2^63-1 and move number 1..15933, is accepted and loaded as exactly that position (the 64 squares, side, rights, ep, ply): no legal position is ever rejected.' + CORR,
+            TB + 'Faithfulness is proved for the canonical FEN text of every legal position; other spellings of the same position (digit runs split differently, castling letters in another order) and a rejected FEN leaving the position unchanged are decided by the differential stream and the command interpreter.', '6/C08'),
     'C09': ('Coq theorems isUnderCheck = geometry for every board + exhaustive single-attacker enumeration (2.9M cases) + positions',
             'C09_piece/pawn/king/under_check: on ANY board, with lists that agree with the board, the engine\'s attack test equals the rules\' geometry (sliders blocked by any piece in between, knights/kings/pawns not, pawns by colour, nothing across the edge); proved from kernel sweeps over the regenerated attack/direction tables (64x64) plus generic ray lemmas.' + CORR,
             TB + 'The complete enumeration of the property\'s quantifier (12 attackers x from x to x no/one blocker) runs on every check through the hook against model and Spec.', '6/C09'),
